@@ -14,11 +14,11 @@ type Kind int
 const (
 	KNil Kind = iota
 	KBool
-	KInt   // int64 payload in Bits
-	KStr   // bytes
+	KInt // int64 payload in Bits
+	KStr // bytes
 	KArr
 	KObj
-	KUint  // uint64 payload
+	KUint // uint64 payload
 	KF32
 	KF64
 	KBytes // byte string (CBOR major type 2); other formats: array of small unsigned integers
@@ -33,17 +33,23 @@ type Node struct {
 }
 
 type Cfg struct {
-	Depth   int // containers may nest this deep (0: scalars only)
-	Width   int // max children per container
-	MaxNode int // max nodes in total
-	StrLen  int // max length of strings and keys (symbolic bytes)
-	Leaves  int // number of leaf kinds used, in the order int,string,bool,nil,uint,f32,f64,bytes
+	Depth   int  // containers may nest this deep (0: scalars only)
+	Width   int  // max children per container
+	MaxNode int  // max nodes in total
+	StrLen  int  // max length of strings and keys (symbolic bytes)
+	Leaves  int  // number of leaf kinds used, in the order int,string,bool,nil,uint,f32,f64,bytes
 	Bytes   bool // additionally generate byte strings (independent of Leaves)
 	ASCII   bool // strings/keys restricted to printable ASCII without quote/backslash
 	Small   bool // integers restricted to 0..9 and string bytes to 'a' (harnesses whose subject is not the scalar encoding)
-	nodes   int
-	h       *rt.H
-	seq     int
+	// Chain > 0: the generated value sits at the bottom of a concrete chain of
+	// containers, one child each, whose depth is chosen in Chain-2..Chain+2 (the
+	// libraries' internal stacks start with 32 or 64 entries: Chain 32 and 64 put the
+	// depth on both sides of the reallocation). Mix: arrays, objects (key "k"), or
+	// alternating, chosen per document.
+	Chain int
+	nodes int
+	h     *rt.H
+	seq   int
 }
 
 func (c *Cfg) name(s string) string {
@@ -54,7 +60,24 @@ func (c *Cfg) name(s string) string {
 // Value generates one value.
 func Value(h *rt.H, c *Cfg) *Node {
 	c.h = h
-	return c.value(0)
+	n := c.value(0)
+	if c.Chain > 0 {
+		lo := c.Chain - 2
+		if lo < 1 {
+			lo = 1
+		}
+		depth := h.Choose("chain", lo, c.Chain+2)
+		mix := h.Choose("chainmix", 0, 2)
+		for i := 0; i < depth; i++ {
+			w := &Node{K: KArr, Kids: []*Node{n}}
+			if mix == 1 || (mix == 2 && i%2 == 0) {
+				w.K = KObj
+				w.Keys = [][]byte{[]byte("k")}
+			}
+			n = w
+		}
+	}
+	return n
 }
 
 func (c *Cfg) str(what string) []byte {
